@@ -150,8 +150,18 @@ pub fn anyv() -> Ty {
     assert!(got as *const u8 == want, "Into<&u8> did not return the designated reference field");
 }
 '''
-    return [Module(f'm{start:04d}', "enum with u8 and &'static u8 fields, targets u8 and &'static u8 (unique same-typed, marker among two references, method on a u16 field)", body, [h1, h2],
+    mods = [Module(f'm{start:04d}', "enum with u8 and &'static u8 fields, targets u8 and &'static u8 (unique same-typed, marker among two references, method on a u16 field)", body, [h1, h2],
                    sample=dict(type_definition=decl[:500]), functions=FUNCTIONS)]
+    # the same request with the reference target written with an elided lifetime (`Into(&u8)`), at type level and in the field marker:
+    # educe reads any `&T` target as `&'static T`, so both spellings must select the same fields
+    body2 = body.replace("#[educe(Into(u8), Into(&'static u8))]", '#[educe(Into(u8), Into(&u8))]').replace("#[educe(Into(&'static u8))] p:", '#[educe(Into(&u8))] p:')
+    assert body2 != body
+    mods.append(Module(f'm{start + 1:04d}', "the same enum with the reference target spelled `&u8` (elided lifetime) at type level and in the field marker", body2, [h1, h2],
+                       sample=dict(type_definition=decl[:200]), functions=FUNCTIONS))
+    body3 = body.replace("#[educe(Into(u8), Into(&'static u8))]", '#[educe(Into(&u8), Into(u8))]')
+    mods.append(Module(f'm{start + 2:04d}', "the same enum with `&u8` at type level only (field marker `&'static u8`), targets in the other order", body3, [h1, h2],
+                       sample=dict(type_definition=decl[:200]), functions=FUNCTIONS))
+    return mods
 
 
 def vid(ftys, des, targets):
